@@ -419,7 +419,13 @@ def w_about_centre(ctx, rng, i):
             h = np.eye(d + 1); h[:d, :d] = gen.well_conditioned(rng, d); tr = mt.Affine(h)
         else:
             tr = mt.UniformScale(float(rng.uniform(0.3, 3)), d)
-        if rng.random() < 0.3:
+        if rng.random() < 0.2:
+            # a genuine homography (a plain Homogeneous with a perspective row), possibly written in another overall scaling
+            h = np.eye(d + 1)
+            h[:d, :d] = gen.well_conditioned(rng, d, 0.6, 1.6)
+            h[d, :d] = rng.uniform(0.002, 0.012, d) * rng.choice([-1.0, 1.0], d)
+            tr = mt.Homogeneous(h * [1.0, 1.0, 2.0, -0.5][rng.integers(0, 4)])
+        elif rng.random() < 0.3:
             # transforms that are not one homogeneous matrix: a chain (rotation, then per-axis scale), a thin-plate spline
             if d == 2 and rng.random() < 0.4:
                 tr, _ = tx.make(rng, "ThinPlateSplines", 2)
